@@ -63,6 +63,7 @@ def c04_s(draw, pid, tier, opts=None):
         "shape": draw(st.sampled_from(["prefix", "prefix", "times16", "plus16", "lead0", "drop_last", "append0", "upper"])),
         "pick": draw(st.integers(0, 50)),
         "pos": draw(st.integers(k + 1 if k else 0, n)),
+        "twice": draw(st.integers(0, 4)) == 0,      # the same stray line arrives twice in a row
     }
     # optional reloads in the middle of the history (service table edited): both runs perform them
     if draw(st.integers(0, 3)) == 0 and n > 2:
@@ -250,6 +251,9 @@ def run_plain(conf, events, workdir, insert=None):
                     if really:
                         out, in_use, _ = d.step(line)
                         info["stray_out"] = [b.decode("latin-1") for b in out]
+                        if len(insert) > 3 and insert[3]:
+                            out, in_use, _ = d.step(line)
+                            info["stray_out"] += [b.decode("latin-1") for b in out]
                     else:
                         return steps, spec, info
                 if ev is None:
@@ -310,7 +314,7 @@ def eval_c04(case, ctx):
     shutil.rmtree(wd, ignore_errors=True)
     pos = min(stray["pos"], len(case["events"]))
     mod, spec1, info = run_plain(case["conf"], case["events"], wd,
-                                 insert=(pos, lambda sp: stray_line(stray, case["conf"], sp), stray["id"]))
+                                 insert=(pos, lambda sp: stray_line(stray, case["conf"], sp), stray["id"], stray.get("twice", False)))
     if info["died"]:
         res.inconclusive = "sut_hang" if info["hang"] else "sut_died"
         return res
